@@ -93,7 +93,10 @@ func Harness_C06_torn_tail_prefix_recoverable() {
 		vm.Assume(t.Len < last.End()+1024)
 	case 3: // nothing missing
 	}
+	// the tape has 3 records and 3 trailers: a rebuild needs at most 3 + 3 + 2 iterations of either loop
+	vm.UnwindIsViolation("C06.rebuild_terminates")
 	idx, err := c01Rebuild(v)
+	vm.UnwindIsViolation("")
 	rows := idx.VerifRows()
 	refRows := refIdx.VerifRows()
 	tornName := last.Hdr.Name
